@@ -14,7 +14,7 @@ def _cfgset(names):
     return [configs.parse(n) for n in names]
 
 
-def plan_value(prop, src, tier, parts=(1, 2, 3, 4), san=True, landmarks=configs.LANDMARKS, extra=(),
+def plan_value(prop, srcs, tier, parts=(1, 2, 3, 4), san=True, landmarks=configs.LANDMARKS, extra=(),
                libs=(), san_parts=None, clang_all=False, plain_variant='plain', max_cfgs=None):
     """Standard plan for value properties: ladder cover configs x parts with g++ C++11 plain,
     clang++ C++20 on three configs, ASan+UBSan on four configs (quick) / all (thorough)."""
@@ -22,21 +22,26 @@ def plan_value(prop, src, tier, parts=(1, 2, 3, 4), san=True, landmarks=configs.
         cfgs, lad = thorough_configs(prop)
     else:
         cfgs, lad = quick_configs(prop, landmarks)
+    if isinstance(srcs, str):
+        srcs = [(srcs, parts)]
     jobs = []
-    for i, c in enumerate(cfgs):
-        std = 11 if tier == 'quick' else STD_ROT[i % 4]
-        for p in parts:
-            jobs.append(Job(src, c, 'g++', std, plain_variant, p, extra=extra, libs=libs))
-    clang_cfgs = cfgs if (tier == 'thorough' or clang_all) else [c for c in cfgs if configs.name(c) in CLANG_QUICK]
-    for i, c in enumerate(clang_cfgs):
-        std = 20 if tier == 'quick' else STD_ROT[(i + 2) % 4]
-        for p in parts:
-            jobs.append(Job(src, c, 'clang++', std, plain_variant, p, extra=extra, libs=libs))
-    if san:
-        san_cfgs = cfgs if tier == 'thorough' else [c for c in cfgs if configs.name(c) in SAN_QUICK]
-        for c in san_cfgs:
-            for p in (san_parts or parts):
-                jobs.append(Job(src, c, 'g++', 11, 'san', p, extra=extra, libs=libs))
+    for src, sparts in srcs:
+        for i, c in enumerate(cfgs):
+            std = 11 if tier == 'quick' else STD_ROT[i % 4]
+            for p in sparts:
+                jobs.append(Job(src, c, 'g++', std, plain_variant, p, extra=extra, libs=libs))
+        clang_cfgs = cfgs if (tier == 'thorough' or clang_all) else [c for c in cfgs if configs.name(c) in CLANG_QUICK]
+        for i, c in enumerate(clang_cfgs):
+            std = 20 if tier == 'quick' else STD_ROT[(i + 2) % 4]
+            for p in sparts:
+                jobs.append(Job(src, c, 'clang++', std, plain_variant, p, extra=extra, libs=libs))
+        if san:
+            san_cfgs = cfgs if tier == 'thorough' else [c for c in cfgs if configs.name(c) in SAN_QUICK]
+            for c in san_cfgs:
+                for p in sparts:
+                    jobs.append(Job(src, c, 'g++', 11, 'san', p, extra=extra, libs=libs))
+    # biggest jobs first (wide configs compile longest)
+    jobs.sort(key=lambda j: -len(configs.closure(j.cfg)) - (8 if j.variant == 'san' else 0))
     return jobs, cfgs, lad
 
 
@@ -84,6 +89,54 @@ def c01(tier, seed):
         assumptions=COMMON_ASSUME)
 
 
+INT4 = (1, 2, 3, 4)
+FLT2 = (1, 2)
+GEN_INT = ('inputs per (config, build, type, op) cell: all 65,536 8-bit pairs in every lane rotation; all 16-bit values x core lattice '
+           '(both orders) + lattice^2 + random; 32/64-bit boundary lattice^2 (powers of two +-1, sub-lane carries, equal-half pairs) + '
+           'structured random pairs; each lane is compared with the scalar model while neighbouring lanes hold unrelated values. '
+           'distinct = distinct (config, build, type, op, input-class of the focus lane); trivial = zero-class first operand. ')
+GEN_FLT = ('float inputs: every exponent x boundary mantissas x both signs, zeros, subnormals, infinities, quiet/signalling NaNs of both signs, '
+           'integers/halfway values around 0, 2^23/2^24, 2^52/2^53, plus structured random patterns; pairs = core^2 + lattice x core + random '
+           '(neighbours, negations, ratios). ')
+
+
+def c02(tier, seed):
+    return value_check('C02', [('c02_cmp_int.cpp', INT4), ('c02_cmp_flt.cpp', FLT2)], tier, seed,
+                       rule=GEN_INT + GEN_FLT + 'Oracle: C++ scalar comparison per lane; mask observed via Vector(mask) and cross-checked with count/any/all/none.',
+                       assumptions=COMMON_ASSUME)
+
+
+def c04(tier, seed):
+    return value_check('C04', 'c04_bits.cpp', tier, seed,
+                       rule=GEN_INT + 'Shift amounts 0..bits inclusive (scalar, per-lane with a different amount per lane, compile-time S for every S); '
+                       'rotations by every amount in [-2*bits-1, 2*bits+1] plus +-2^31, +-2^32, +-2^40, LLONG_MIN/MAX; compile-time rotations for S in 0..2*bits+1 and up to 4*bits+1.',
+                       assumptions=COMMON_ASSUME)
+
+
+def c05(tier, seed):
+    return value_check('C05', 'c05_div.cpp', tier, seed,
+                       rule=GEN_INT + 'Plus division-specific pairs: multiples of the divisor +-1 near both range ends, q*d+r with random quotient magnitudes, '
+                       'similar-magnitude pairs. (MIN,-1) never generated; zero divisors only in vectors wider than one lane, planted in every lane position in turn, '
+                       'monitoring SIGFPE and the value of every non-zero-divisor lane.',
+                       assumptions=COMMON_ASSUME)
+
+
+def c06(tier, seed):
+    return value_check('C06', 'c06_bitcount.cpp', tier, seed,
+                       rule='every 8/16-bit value; 32-bit lattice + random (quick) ; 64-bit every 1-bit/2-bit/low-mask/high-mask pattern, neighbours, complements + random; '
+                       'vector lanes in all rotations, scalar overloads with run-time operands, and fold probes (compile-time-constant arguments at -O2). '
+                       'bit_floor/bit_ceil of negative signed values (documented undefined) are not generated. distinct = (config, build, type, op, input class).',
+                       assumptions=COMMON_ASSUME)
+
+
+def c07(tier, seed):
+    return value_check('C07', [('c07_sel_int.cpp', INT4), ('c07_sel_flt.cpp', FLT2)], tier, seed,
+                       rule=GEN_INT + GEN_FLT + 'Masks: all 2^N patterns for N<=16 (scrambled order), structured+random otherwise. clamp only with lo<hi; float min/max/clamp only non-NaN, '
+                       'compared by value (either zero accepted); float blend/keep/clear/abs/neg_abs/negate/copysign compared as bit patterns; '
+                       'neg_abs of unsigned inputs >= 2^(bits-1) not generated (ambiguous in the statement).',
+                       assumptions=COMMON_ASSUME)
+
+
 CHECKS = {
-    'C01': c01,
+    'C01': c01, 'C02': c02, 'C04': c04, 'C05': c05, 'C06': c06, 'C07': c07,
 }
